@@ -24,13 +24,41 @@ ASSUMPTIONS = ['the real conversion (run B) defines which files are written; ori
 SHARDS = {'quick': 8, 'thorough': 16}
 BUDGET = {'quick': 55, 'thorough': 1200}
 
-PROFILE = gen.profile(externals=False)
+# inline function calls are dependencies only with full_parse=True (documented, see C21): a planning run does not see
+# them, so function procedures are outside the domain of this check
+PROFILE = gen.profile(externals=False, functions=False)
+# projects on which the renaming transformations (DependencyTransformation, ModuleWrapTransformation) are drawn: plain
+# calls between module procedures and free routines, one program unit per file (see dep_triggers)
+PLAIN = gen.profile(externals=False, functions=False, types=False, interfaces=False, renames=False,
+                    generic_bindings=False)
+# failure kinds that name their root cause (no search for the responsible pipeline step)
+SELF_EXPLAINING = ('transform:misses-origin-of-duplicated-file',)
 PLAN_RE = re.compile(r'set\(\s*(\w+)\s*(.*?)\s*\)', re.DOTALL)
+
+
+def dep_triggers(proj):
+    """project features under which a renaming transformation makes the *converting* scheduler lose items (listed)"""
+    out = []
+    if any(m['interfaces'] for m in proj['modules']):
+        out.append('generic-interface')
+    if any(t['bindings'] for m in proj['modules'] for t in m['types']):
+        out.append('type-bound-procedure')
+    if any(s.get('via', '').endswith('_rename') for _, r in gen.all_routines(proj) for s in r['body']
+           if s['k'] in ('call', 'gcall', 'tbp', 'fcall')):
+        out.append('renamed-import')
+    if any(len(f['units']) > 1 for f in proj['files']):
+        out.append('multi-unit-file')
+    return out
 
 
 @st.composite
 def cases(draw):
-    proj = draw(gen.projects(PROFILE))
+    plain = draw(st.booleans())
+    proj = draw(gen.projects(PLAIN if plain else PROFILE))
+    if plain:
+        # one program unit per file (file name = unit name), users first as in the generated order
+        sfx = [f['path'].rsplit('.', 1)[1] for f in proj['files']]
+        proj['files'] = [{'path': f'{u[2:]}.{sfx[k % len(sfx)]}', 'units': [u]} for k, u in enumerate(proj['order'])]
     cfg = draw(gen.configs(proj, PROFILE, strict=False))
     conf = cfg['config']
     # seeds are drivers; sprinkle replicate / lib
@@ -57,8 +85,9 @@ def cases(draw):
         conf['routines'].setdefault(existing[0] if existing else key, {})['role'] = 'driver'
     callees = sorted({s['target'] for _, r in gen.all_routines(proj) for s in r['body']
                       if s['k'] == 'call' and s.get('via') not in ('self', 'back')})
-    pipeline = []
-    for _ in range(draw(st.integers(0, 2))):
+    trig = dep_triggers(proj)
+    pipeline, skipped = [], []
+    for _ in range(draw(st.sampled_from([2, 1, 1, 0]))):
         t = draw(st.sampled_from(['dep', 'wrap', 'dup', 'dupsub', 'remove']))
         if t in ('dup', 'dupsub', 'remove'):
             if not callees:
@@ -66,14 +95,20 @@ def cases(draw):
             k = callees[draw(st.integers(0, len(callees) - 1))].split('#')[1]
             pipeline.append({'t': t, 'kernel': k, 'suffix': draw(st.sampled_from(['_dup', '_x2'])),
                              'module_suffix': draw(st.sampled_from([None, '_md']))})
+        elif trig:
+            # listed findings: the converting scheduler loses renamed items (exclusion by construction)
+            skipped.append(f'{t} not drawn: project has {trig[0]} (listed finding items-lost-after-dep)')
         elif t == 'dep':
             pipeline.append({'t': 'dep', 'suffix': draw(st.sampled_from(['_loki', '_x'])),
                              'module_suffix': draw(st.sampled_from([None, '_mod']))})
         else:
             pipeline.append({'t': 'wrap', 'module_suffix': '_mod'})
+    # documented order: ModuleWrapTransformation is applied before DependencyTransformation
+    if [s['t'] for s in pipeline] == ['dep', 'wrap']:
+        pipeline.reverse()
     fw = {'suffix': draw(st.sampled_from([None, None, '.F90', '.f90'])),
           'include_module_var_imports': draw(st.booleans())}
-    return {'proj': proj, 'cfg': cfg, 'pipeline': pipeline, 'fw': fw,
+    return {'proj': proj, 'cfg': cfg, 'pipeline': pipeline, 'fw': fw, 'skipped': skipped,
             'inplace': draw(st.sampled_from([False, False, True])), 'relroot': draw(st.booleans())}
 
 
@@ -101,11 +136,23 @@ def listing(root):
     return out
 
 
-def run_both(case, wd):
-    """-> (plan dict name -> [abs paths], written set, info)"""
+def snapshot(sched):
+    """{item name: [kind, is_ignored, source path | None]} of the scheduler graph"""
+    out = {}
+    for it in sched.items:
+        kind = harness.KINDS.get(type(it).__name__)
+        out[it.name.lower()] = [kind, bool(it.is_ignored),
+                                None if kind == 'external' else os.path.normpath(str(it.source.path))]
+    return out
+
+
+def run_both(case, wd, pipeline=None):
+    """-> dict(plan = {list name: [abs paths]}, written = set of abs paths, pre_a / pre_b = graph snapshots of the
+    planning / converting scheduler before the pipeline)"""
     from loki.batch import ProcessingStrategy
     from loki.transformations.build_system import FileWriteTransformation
     cfg = case['cfg']
+    pipeline = case['pipeline'] if pipeline is None else pipeline
     outdir = None if case['inplace'] else os.path.join(wd.dir, 'out')
     if outdir:
         os.makedirs(outdir, exist_ok=True)
@@ -113,7 +160,8 @@ def run_both(case, wd):
     root = wd.dir if case['relroot'] else None
     # ---- run A: plan ---------------------------------------------------------------------------------
     sa = harness.make_scheduler(wd.src, cfg['config'], cfg['seeds'], full_parse=False, output_dir=outdir)
-    for spec in case['pipeline']:
+    pre_a = snapshot(sa)
+    for spec in pipeline:
         sa.process(build_trafo(spec), proc_strategy=ProcessingStrategy.PLAN)
     sa.process(FileWriteTransformation(**case['fw']), proc_strategy=ProcessingStrategy.PLAN)
     sa.write_cmake_plan(planfile, rootpath=root)
@@ -131,35 +179,36 @@ def run_both(case, wd):
     # ---- run B: conversion ---------------------------------------------------------------------------------
     before = listing(wd.dir)
     sb = harness.make_scheduler(wd.src, cfg['config'], cfg['seeds'], full_parse=True, output_dir=outdir)
-    for spec in case['pipeline']:
+    pre_b = snapshot(sb)
+    lost_after = None
+    n_ext = sum(1 for v in pre_b.values() if v[0] == 'external')
+    for spec in pipeline:
         sb.process(build_trafo(spec), proc_strategy=ProcessingStrategy.SEQUENCE)
+        n_now = sum(1 for it in sb.items if type(it).__name__ == 'ExternalItem')
+        if n_now > n_ext and lost_after is None:
+            lost_after = spec['t']
+        n_ext = n_now
     sb.process(FileWriteTransformation(**case['fw']), proc_strategy=ProcessingStrategy.SEQUENCE)
     written = {os.path.normpath(pth) for pth in listing(wd.dir) - before}
-    items_b = {it.name: (harness.KINDS.get(type(it).__name__), bool(it.is_ignored),
-                         None if type(it).__name__ == 'ExternalItem' else str(it.source.path))
-               for it in sb.items}
-    return plan, written, items_b
+    return {'plan': plan, 'written': written, 'pre_a': pre_a, 'pre_b': pre_b, 'lost_after': lost_after}
 
 
-def check_case(case, ctx):
+def domain_exclusion(case, obs):
+    """reason why the case lies outside the domain judged here (None: inside)"""
+    ga = {n: v[:2] for n, v in obs['pre_a'].items()}
+    gb = {n: v[:2] for n, v in obs['pre_b'].items()}
+    if ga != gb:
+        return 'planning (regex) and converting (full parse) scheduler graphs differ before the pipeline (C21 domain)'
+    return None
+
+
+def judge(case, obs, wdir, originals):
+    """-> (list of (kind, detail), info); kinds carry no generated names and no pipeline"""
     proj, cfg = case['proj'], case['cfg']
-    kinds = [s['t'] for s in case['pipeline']]
-    classes = [f'pipeline={"+".join(kinds) or "idem"}', f'inplace={case["inplace"]}', f'relroot={case["relroot"]}',
-               f'fw_suffix={case["fw"]["suffix"]}', f'modvar_imports={case["fw"]["include_module_var_imports"]}']
-    with harness.Workdir(proj, None, label='c24') as wd:
-        originals = {os.path.normpath(pth) for pth in wd.paths}
-        try:
-            plan, written, items_b = run_both(case, wd)
-        except Exception as e:  # noqa
-            root = e
-            while root.__cause__ is not None:
-                root = root.__cause__
-            ctx.case(case, False, classes + ['rejected'])
-            ctx.reject(root, case)
-            return
-        wdir = wd.dir
+    plan, written = obs['plan'], obs['written']
     rel = lambda ps: sorted(os.path.relpath(pth, wdir) for pth in ps)  # noqa
-    stems = {os.path.basename(pth).split('.')[0].lower(): pth for pth in originals}
+    stem = lambda pth: os.path.basename(pth).split('.')[0].lower()  # noqa
+    stems = {stem(pth): pth for pth in originals}
     # duplicated kernels: new file named after the new module / routine
     dup_origin = {}
     ufile = gen.unit_file(proj)
@@ -169,59 +218,135 @@ def check_case(case, ctx):
                 src = os.path.normpath(os.path.join(wdir, 'src', ufile[f'm:{mn}'] if mn else ufile[f'f:{r["name"]}']))
                 new_stem = (f'{mn}{spec["module_suffix"] or spec["suffix"]}' if mn else f'{r["name"]}{spec["suffix"]}').lower()
                 dup_origin.setdefault(new_stem, src)
-
-    def origin(pth):
-        stem = os.path.basename(pth).split('.')[0].lower()
-        return stems.get(stem) or dup_origin.get(stem)
-
-    origins = {origin(pth) for pth in written}
-    unknown = [pth for pth in written if origin(pth) is None]
-    # replicate flags from the configuration (independent matching)
+    fails = []
+    unknown = [pth for pth in written if stem(pth) not in stems and stem(pth) not in dup_origin]
+    # originals of which a transformed version was written / originals of which only a duplicate was written
+    replaced = {stems[stem(pth)] for pth in written if stem(pth) in stems}
+    dup_from = {dup_origin[stem(pth)] for pth in written if stem(pth) not in stems and stem(pth) in dup_origin}
+    origins = replaced | dup_from
+    # replicate flags from the configuration (independent key matching) of the items the conversion starts from
     rep = set()
-    for n, (kind, ign, path) in items_b.items():
-        if path and refgraph.item_config(cfg['config'], n).get('replicate'):
-            rep.add(os.path.normpath(path))
-    n_rep = len([o for o in origins if o in rep])
-    creating = any(k in ('dup', 'dupsub', 'remove', 'dep', 'wrap') for k in kinds)
-    nontrivial = len(written) >= 2 and (creating or (n_rep >= 1 and n_rep < len(origins)))
-    classes += ['has-replicated' if n_rep else 'no-replicated', 'has-lib' if 'lib' in str(cfg['config']) else 'no-lib']
-    ctx.case(case, nontrivial, classes)
-    if ctx.evaluations % 100 == 1:
-        ctx.sample({'pipeline': case['pipeline'], 'fw': case['fw'], 'config': cfg, 'plan': {k: rel(v) for k, v in plan.items()},
-                    'written': rel(written)})
+    for n, (kind, ign, path) in obs['pre_b'].items():
+        if path and not ign and refgraph.item_config(cfg['config'], n).get('replicate'):
+            rep.add(path)
+    n_rep = len([o for o in replaced if o in rep])
+    info = {'n_rep': n_rep, 'n_replaced': len(replaced), 'n_dup_files': len(written) - len(replaced) - len(unknown),
+            'n_written': len(written)}
     if unknown:
-        ctx.fail('C24:written-file-of-unknown-origin', case, str(rel(unknown)))
-        return
-    pipe = '+'.join(sorted(set(kinds))) or 'idem'
+        return [('written-file-of-unknown-origin', str(rel(unknown)))], info
     append = plan.get('LOKI_SOURCES_TO_APPEND', [])
     transform = plan.get('LOKI_SOURCES_TO_TRANSFORM', [])
     remove = plan.get('LOKI_SOURCES_TO_REMOVE', [])
     if set(append) != written:
         only_plan, only_real = set(append) - written, written - set(append)
         what = 'planned-but-not-written' if only_plan and not only_real else \
-            'written-but-not-planned' if only_real and not only_plan else 'both'
-        ctx.fail(f'C24:append-differs:{what}:{pipe}', case, f'plan-only {rel(only_plan)} written-only {rel(only_real)}')
-        return
+            'written-but-not-planned' if only_real and not only_plan else 'planned-and-written-differ'
+        if what == 'planned-but-not-written' and obs['lost_after']:
+            what += f':items-become-external-after-{obs["lost_after"]}'
+        return [(f'append:{what}', f'plan-only {rel(only_plan)} written-only {rel(only_real)}')], info
     if len(append) != len(set(append)):
-        ctx.fail('C24:append-duplicates', case, str(rel(append)))
+        fails.append(('append:duplicate-entries', str(rel(append))))
     if set(transform) != origins:
-        ctx.fail(f'C24:transform-differs:{pipe}', case,
-                 f'plan-only {rel(set(transform) - origins)} expected-only {rel(origins - set(transform))}')
-    exp_remove = {o for o in origins if o not in rep and o in originals}
+        missing, extra = origins - set(transform), set(transform) - origins
+        if not extra and missing <= dup_from - replaced:
+            what = 'misses-origin-of-duplicated-file'
+        elif not extra:
+            what = 'misses-origin-of-written-file'
+        elif not missing:
+            what = 'lists-file-nothing-was-written-from'
+        else:
+            what = 'differs'
+        fails.append((f'transform:{what}', f'plan-only {rel(extra)} expected-only {rel(missing)}'))
+    exp_remove = {o for o in replaced if o not in rep}
     if set(remove) != exp_remove:
-        ctx.fail(f'C24:remove-differs:{pipe}', case,
-                 f'plan-only {rel(set(remove) - exp_remove)} expected-only {rel(exp_remove - set(remove))}; replicated={rel(rep)}')
+        missing, extra = exp_remove - set(remove), set(remove) - exp_remove
+        if extra and not missing:
+            what = 'lists-replicated-file' if extra <= rep else 'lists-file-that-is-not-replaced'
+        elif missing and not extra:
+            what = 'misses-replaced-file'
+        else:
+            what = 'differs'
+        fails.append((f'remove:{what}', f'plan-only {rel(extra)} expected-only {rel(missing)}; replicated={rel(rep)}'))
     # per-lib lists partition the global ones (when every item has a lib)
     for base, glob in (('LOKI_SOURCES_TO_APPEND', append), ('LOKI_SOURCES_TO_TRANSFORM', transform),
                        ('LOKI_SOURCES_TO_REMOVE', remove)):
         per = {k: v for k, v in plan.items() if k.startswith(base + '_')}
         union = [pth for v in per.values() for pth in v]
         if len(union) != len(set(union)):
-            ctx.fail('C24:lib-lists-overlap', case, f'{base}: {rel(union)}')
+            fails.append(('lib-lists-overlap', f'{base}: {rel(union)}'))
         if not set(union) <= set(glob):
-            ctx.fail('C24:lib-lists-not-subset', case, f'{base}: {rel(set(union) - set(glob))}')
+            fails.append(('lib-lists-not-subset', f'{base}: {rel(set(union) - set(glob))}'))
         if 'lib' in cfg['config']['default'] and set(union) != set(glob):
-            ctx.fail('C24:lib-lists-do-not-cover', case, f'{base}: missing {rel(set(glob) - set(union))}')
+            fails.append(('lib-lists-do-not-cover', f'{base}: missing {rel(set(glob) - set(union))}'))
+    return fails, info
+
+
+def evaluate(case, pipeline=None):
+    """-> ('rejected', exc) | ('excluded', reason) | ('judged', fails, info, obs summary)"""
+    sub = case if pipeline is None else dict(case, pipeline=pipeline)
+    with harness.Workdir(case['proj'], None, label='c24') as wd:
+        originals = {os.path.normpath(pth) for pth in wd.paths}
+        try:
+            obs = run_both(sub, wd)
+        except Exception as e:  # noqa  (loki raised on a generated input: pipelines are not total)
+            root = e
+            while root.__cause__ is not None:
+                root = root.__cause__
+            return ('rejected', root)
+        reason = domain_exclusion(sub, obs)
+        if reason:
+            return ('excluded', reason)
+        fails, info = judge(sub, obs, wd.dir, originals)
+        rel = lambda ps: sorted(os.path.relpath(pth, wd.dir) for pth in ps)  # noqa
+        summary = {'plan': {k: rel(v) for k, v in obs['plan'].items()}, 'written': rel(obs['written'])}
+        return ('judged', fails, info, summary)
+
+
+def culprit(case, kind):
+    """the single pipeline step (or the empty pipeline) that reproduces a failure of this kind on its own"""
+    if not case['pipeline']:
+        return 'idem'
+    res = evaluate(case, [])
+    if res[0] == 'judged' and any(k == kind for k, _ in res[1]):
+        return 'idem'
+    if len(case['pipeline']) == 1:
+        return case['pipeline'][0]['t']
+    for spec in case['pipeline']:
+        res = evaluate(case, [spec])
+        if res[0] == 'judged' and any(k == kind for k, _ in res[1]):
+            return spec['t']
+    return 'combination'
+
+
+def check_case(case, ctx):
+    kinds = [s['t'] for s in case['pipeline']]
+    classes = [f'pipeline={"+".join(kinds) or "idem"}', f'inplace={case["inplace"]}', f'relroot={case["relroot"]}',
+               f'fw_suffix={case["fw"]["suffix"]}', f'modvar_imports={case["fw"]["include_module_var_imports"]}']
+    for reason in case.get('skipped', ()):
+        ctx.exclude(reason)
+    res = evaluate(case)
+    if res[0] == 'rejected':
+        ctx.case(case, False, classes + ['rejected'])
+        ctx.reject(res[1], case)
+        return
+    if res[0] == 'excluded':
+        ctx.exclude(res[1])
+        return
+    _, fails, info, summary = res
+    creating = bool(kinds)
+    nontrivial = info['n_written'] >= 2 and (creating or 0 < info['n_rep'] < info['n_replaced'])
+    classes += ['has-replicated' if info['n_rep'] else 'no-replicated',
+                'has-lib' if 'lib' in str(case['cfg']['config']) else 'no-lib',
+                'writes-duplicated-file' if info['n_dup_files'] else 'no-duplicated-file',
+                f'written={min(info["n_written"], 4)}{"+" if info["n_written"] >= 4 else ""}']
+    ctx.case(case, nontrivial, classes)
+    if ctx.evaluations % 100 == 1:
+        ctx.sample({'pipeline': case['pipeline'], 'fw': case['fw'], 'config': case['cfg'], **summary})
+    for kind, detail in fails:
+        if kind in SELF_EXPLAINING or 'items-become-external' in kind:
+            ctx.fail(f'C24:{kind}', case, detail)
+        else:
+            ctx.fail(f'C24:{kind}:{culprit(case, kind)}', case, detail)
 
 
 def run_shard(ctx):
